@@ -47,6 +47,11 @@ public:
         client->logger()->setLoggingType(qEnvironmentVariableIsSet("VERIF_LOG") ? QXmppLogger::StdoutLogging : QXmppLogger::NoLogging);
         QObject::connect(client.get(), &QXmppClient::connected, this, [this] { ++connectedSignals; events << QStringLiteral("SIG connected"); });
         QObject::connect(client.get(), &QXmppClient::disconnected, this, [this] { ++disconnectedSignals; events << QStringLiteral("SIG disconnected"); });
+        QObject::connect(client.get(), &QXmppClient::stateChanged, this, [this](QXmppClient::State st) {
+            if (st == QXmppClient::ConnectedState) {
+                ++connectedStateReports;
+            }
+        });
         QObject::connect(client.get(), &QXmppClient::errorOccurred, this, [this](const QXmppError &e) { ++errorSignals; events << QStringLiteral("SIG error ") + e.description.left(60); });
         auto *sock = client->d->stream->socket();
         QObject::connect(sock, &QAbstractSocket::connected, this, [sock] { LoopServer::setNoDelay(sock); });
@@ -237,6 +242,7 @@ public:
     int markFinal = 0;               // wire.size() just before the last negotiation element was sent
     QStringList events;
     int connectedSignals = 0, disconnectedSignals = 0, errorSignals = 0;
+    int connectedStateReports = 0;   // stateChanged(ConnectedState) emissions
     QString error;
 };
 
